@@ -71,3 +71,6 @@
 ; root from a proof: fold the leaf through the sibling list with the node rule
 (define-fun-rec foldNode ((d Bytes) (p (Array Int Bytes)) (n Int)) Bytes
   (ite (<= n 0) d (node (foldNode d p (- n 1)) (select p (- n 1)))))
+
+; ---- message routing (assumed pure functions of the message) ---------------------------------------
+(declare-fun msgSigners (Iface) (GSeq Bytes))    ; signers declared by the cosmos.msg.v1.signer option
